@@ -2,7 +2,9 @@
 (* Batch trace validation for ConnLife.tla.  Each trace:                   *)
 (*   CFG  {closeSocket, ignoreAbrupt}                                      *)
 (*   CALL {api, env, arrive, res, n, closed, sess, desc, wantdesc, match}  *)
-(* api in handshake/read/write/close; env = what the harness made the      *)
+(* (+ refs = _refCount after the call)                                     *)
+(* api in handshake/read/write/close/makefile (close = the connection's or *)
+(* a file object's; read/write may go through a file object); env = what the harness made the      *)
 (* peer/transport do during the call; res = abstract result class;         *)
 (* closed / sess = projection of the connection after the call.            *)
 EXTENDS ConnLife, Json, IOUtils, TLCExt
@@ -15,11 +17,12 @@ E == T[l]
 
 TraceInit == /\ tid \in 1..N /\ l = 2
              /\ InitWith([closeSocket |-> Traces[tid][1].closeSocket, ignoreAbrupt |-> Traces[tid][1].ignoreAbrupt])
-             /\ last = [api |-> "-", env |-> "-", res |-> "-", pre |-> "-"]
+             /\ last = Last0
 
 \* the logged projection must be the state the specification reaches
 ProjMatches == /\ E.closed = (phase' # "open")
                /\ E.sess = sess'
+               /\ E.refs = refs'
 \* a fatal alert from the peer is surfaced with the peer's description; returned bytes are the right ones
 Faithful == /\ (E.res \in {"RemoteAlertFatal", "RemoteAlertWarning"} => E.desc = E.wantdesc)
             /\ E.match
@@ -28,17 +31,19 @@ Faithful == /\ (E.res \in {"RemoteAlertFatal", "RemoteAlertWarning"} => E.desc =
             /\ (E.env = "fatalsend" /\ ~E.buffered => E.res = "RemoteAlertFatal")
 
 Sib == /\ l <= Len(T) /\ E.ev = "SIB" /\ l' = l + 1 /\ UNCHANGED tid
-       /\ SiblingFails /\ last' = [api |-> "sibling", env |-> "-", res |-> "-", pre |-> phase]
+       /\ SiblingFails /\ Last("sibling", "-", "-")
        /\ E.sess = sess'
 Step == /\ l <= Len(T) /\ E.ev = "CALL" /\ l' = l + 1 /\ UNCHANGED tid
-        /\ CASE E.api = "handshake" -> Handshake(E.env, E.res)
-             [] E.api = "read"      -> Read(E.env, E.arrive, E.res, E.n)
-             [] E.api = "write"     -> Write(E.env, E.res)
-             [] E.api = "close"     -> Close(E.env, E.res)
+        /\ CASE E.api = "handshake" -> Handshake(E.env, E.res) /\ RefsAfter("handshake")
+             [] E.api = "read"      -> Read(E.env, E.arrive, E.res, E.n) /\ RefsAfter("read")
+             [] E.api = "write"     -> Write(E.env, E.res) /\ RefsAfter("write")
+             [] E.api = "close"     -> CloseRef(E.env, E.res)          \* the connection's close() or a file object's
+             [] E.api = "makefile"  -> Makefile(E.res)
              [] OTHER -> FALSE
-        /\ last' = [api |-> E.api, env |-> E.env, res |-> E.res, pre |-> phase]
+        /\ Last(E.api, E.env, E.res)
         /\ ProjMatches /\ Faithful
 InvAll == TruncationNotEOF /\ NoResumeAfterFatal /\ NoCompleteAfterFault /\ FatalAlertSurfaced /\ WriteAfterCloseRaises
+          /\ OpenHasHolder /\ LastCloseCloses
 TraceNext == (Step \/ Sib) /\ InvAll'
 
 Mark == IF l - 1 > TLCGet(tid) THEN TLCSet(tid, l - 1) ELSE TRUE
